@@ -25,11 +25,17 @@ type c07Conn struct {
 	closed    bool
 	afterStop int // bytes written after the session left Established
 	stopped   bool
+	blocked   bool          // the peer has stopped reading: writes block until the connection is closed
+	unblock   chan struct{} // closed by Close
 }
 
 func (c *c07Conn) Write(b []byte) (int, error) {
 	if c.failWrite {
 		return 0, errors.New("write failed")
+	}
+	if c.blocked {
+		<-c.unblock
+		return 0, errors.New("use of closed connection")
 	}
 	c.writes++
 	if c.stopped {
@@ -37,7 +43,13 @@ func (c *c07Conn) Write(b []byte) (int, error) {
 	}
 	return len(b), nil
 }
-func (c *c07Conn) Close() error { c.closed = true; return nil }
+func (c *c07Conn) Close() error {
+	if !c.closed {
+		close(c.unblock)
+	}
+	c.closed = true
+	return nil
+}
 
 func c07Chain(rewrite bool) filter.Chain {
 	if rewrite {
@@ -72,7 +84,7 @@ func c07Setup() *c07Sys {
 	fsm := newFSM(p)
 	p.fsms = append(p.fsms, fsm)
 	fsm.ipv6Unicast.multiProtocol = true
-	cc := &c07Conn{}
+	cc := &c07Conn{unblock: make(chan struct{})}
 	fsm.con = cc
 	fsm.connectRetryTimer = time.NewTimer(time.Minute)
 	fsm.holdTime = 90 * time.Second
@@ -177,6 +189,30 @@ func VC07_Leave() {
 	// ---- the session leaves Established
 	var next state
 	malformedOK := false
+	if vParam("failwrite") == 1 {
+		cc.failWrite = true // the NOTIFICATION (if the event sends one) cannot be written
+	}
+	if vParam("blockwrite") == 1 {
+		// the peer stopped reading: the update sender is stuck in Write when the event arrives
+		cc.blocked = true
+		sys.rib4.AddPath(c07Pfx(7), c07Static(7))
+		vAdvance(int64(10 * time.Millisecond))
+		vSettle()
+		done := false
+		go func() {
+			next, _ = s.notification()
+			done = true
+		}()
+		vSettle()
+		vReach("left")
+		_ = done
+		vAssert(c07FromSession(sys, sys.rib4) == 0, "C07.locrib.ipv4.withdrawn")
+		vAssert(c07FromSession(sys, sys.rib6) == 0, "C07.locrib.ipv6.withdrawn")
+		vAssert(!sys.vrf.IsContributingASN(65000), "C07.contributing.asn.withdrawn")
+		vAssert(sys.rib4.ClientCount() == clients4-1, "C07.adjribout.unregistered")
+		vAssert(cc.closed, "C07.connection.closed")
+		return
+	}
 	switch vParam("event") {
 	case 1:
 		next, _ = s.msgReceived(c07Notification(), fsm.decodeOptions(), false, 0)
@@ -216,6 +252,7 @@ func VC07_Leave() {
 	}
 	vSettle()
 	cc.stopped = true
+	cc.failWrite = false
 	vReach("left")
 	if malformedOK {
 		return // the symbolic bytes happened to be a valid UPDATE
@@ -239,7 +276,7 @@ func VC07_Leave() {
 	vAssert(cc.afterStop == 0, "C07.nothing.sent.after.leaving")
 
 	// ---- re-establishment
-	cc2 := &c07Conn{}
+	cc2 := &c07Conn{unblock: make(chan struct{})}
 	fsm.con = cc2
 	s2 := newEstablishedState(fsm)
 	vAssert(s2.init() == nil, "C07.reinit")
